@@ -390,8 +390,20 @@ func runC07(r *mon.Run) {
 			fail("Verify/nil-opts", "Verify(nil options)", g, core && inRange)
 		}
 		// an undefined encoding selector accepts nothing
-		if g := pub.Verify(t.Digest, der, &secec.ECDSAOptions{Encoding: secec.SignatureEncoding(3 + rng.Intn(5))}); g {
-			fail("Verify/bad-encoding", "Verify(undefined encoding)", g, false)
+		// (negative, just-out-of-range, byte-/word-truncating to a defined selector), whichever
+		// wire form the signature is presented in
+		{
+			ue := undefinedEncoding(rng)
+			forms := [][]byte{der}
+			if canBytes {
+				cp := append(b32(t.R), b32(t.S)...)
+				forms = append(forms, cp, append(append([]byte{}, cp...), byte(rng.Intn(4))))
+			}
+			for _, f := range forms {
+				if g := pub.Verify(t.Digest, f, &secec.ECDSAOptions{Encoding: ue, RejectMalleable: rng.Bool()}); g {
+					fail("Verify/bad-encoding", fmt.Sprintf("Verify(undefined encoding %d, %d-byte signature)", int(ue), len(f)), g, false)
+				}
+			}
 		}
 		// recoverable: every id; accept iff in range, digest 32 bytes, id in [0,3] and the id reconstructs Q
 		if canBytes {
